@@ -23,6 +23,10 @@ Section 5 (namespace `Create`, at the end of the file) is about a different mach
 the get-or-create of a stream's SegStore in the table `allSegStores` by any number of concurrent ingest calls, with
 flushes and removeStaleSegments — no acknowledged event may end up in a store that is not in the table.
 
+Section 6 (namespace `Flush`, after section 5) is about the machine of `SigModel/Model/ConcFlush.lean`: the flushes of
+DIFFERENT segstores (different indexes, several streams of one index) run concurrently — each holds only its own
+store's lock — and every segment's block-summary file must hold exactly the summaries of its own blocks.
+
 Block `(g, k)` "has been flushed" in state `s` iff `k < s.total g`; `(s.query j).pre` is `total` at the
 moment query `j` took its first step (theorem `pre_is_flushed_at_first_step`).
 -/
@@ -30,6 +34,8 @@ import SigModel.Model.Conc
 import SigModel.Lemmas.C11d
 import SigModel.Lemmas.C11e
 import SigModel.Lemmas.C11f
+import SigModel.Lemmas.C11g
+import SigModel.Lemmas.SegSelect
 
 namespace SigModel.Props.C11
 open SigModel.Conc
@@ -329,6 +335,45 @@ example : noRemoveInWindow {} [.rot, .read, .read, .rot, .rot, .read, .rot] = tr
     (rrun .old {} [.rot, .read, .read, .rot, .rot, .read, .rot]).outcome = some .readRotated := by
   decide
 
+/-! ### The open segments are collected whatever the rotated metadata hold (Model/SegSelect.lean; suite `segsel`,
+facts C11.query.unrotated.steps / C11.aggs.unrotated.steps)
+
+"Every event whose flush completed before the search began" sits in a segment that is in the unrotated or in the rotated map
+(section 1).  That the query then asks for that segment is decided by time, per segment: an index may have several open
+segments (one per ingest stream) and its rotated segments may end later than events that are still in an open one. -/
+section SegSelect
+open SigModel.SegSelect
+
+/-- a flushed event of an OPEN segment of a queried index, inside the query range: the query's request list holds a request for
+the segment's key — for EVERY content of the rotated tables (newer or older than the range, of any index) -/
+theorem open_segment_collected (qs qe org t : Int) (indexes : List Nat) (tables : Nat → List SegSelect.Seg) (open_ : List SegSelect.Seg) (s : SegSelect.Seg)
+    (hq1 : qs ≤ t) (hq2 : t ≤ qe) (hs1 : s.earliest ≤ t) (hs2 : t ≤ s.latest) (horg : s.org = org) (hix : s.table ∈ indexes)
+    (hopen : s ∈ open_) :
+    ∃ s' ∈ (collect qs qe org indexes tables open_).1 ++ (collect qs qe org indexes tables open_).2, s'.key = s.key :=
+  collect_has_key qs qe org indexes tables open_ s
+    (Or.inr ((mem_filterUnrotated ..).mpr ⟨hopen, hix, keep_of_point qs qe org t s hq1 hq2 hs1 hs2 horg⟩))
+
+/-- the same for a segment that has just moved to the rotated table (it is found there) -/
+theorem rotated_segment_collected (qs qe org t : Int) (indexes : List Nat) (tables : Nat → List SegSelect.Seg) (open_ : List SegSelect.Seg) (s : SegSelect.Seg)
+    (hq1 : qs ≤ t) (hq2 : t ≤ qe) (hs1 : s.earliest ≤ t) (hs2 : t ≤ s.latest) (horg : s.org = org) (hix : s.table ∈ indexes)
+    (hrot : s ∈ tables s.table) :
+    ∃ s' ∈ (collect qs qe org indexes tables open_).1 ++ (collect qs qe org indexes tables open_).2, s'.key = s.key :=
+  collect_has_key qs qe org indexes tables open_ s
+    (Or.inl ((mem_filterRotated ..).mpr ⟨s.table, hix, hrot, keep_of_point qs qe org t s hq1 hq2 hs1 hs2 horg⟩))
+
+/-- the unrotated look-up may NOT be skipped on the strength of the rotated metadata: with the rule of
+metadata.IsUnrotatedQueryNeeded (`collectSkipUnrotated`, not the code: no unrotated requests when every queried index has
+rotated data ending at or after the range's end) the flushed events 500..504 of the open segment of a second stream are lost
+for the range [400, 600] once the first stream's segment [1000, 1009] is rotated -/
+theorem skip_unrotated_counterexample :
+    let tables : Nat → List SegSelect.Seg := fun ix => if ix = 0 then [⟨1, 0, 1000, 1009, 0⟩] else []
+    let open_ : List SegSelect.Seg := [⟨2, 0, 500, 504, 0⟩]
+    (∃ s' ∈ (collect 400 600 0 [0] tables open_).1 ++ (collect 400 600 0 [0] tables open_).2, s'.key = 2) ∧
+    ¬ (∃ s' ∈ (collectSkipUnrotated 400 600 0 [0] tables open_).1 ++ (collectSkipUnrotated 400 600 0 [0] tables open_).2, s'.key = 2) := by
+  decide
+
+end SegSelect
+
 end SigModel.Props.C11
 
 /-! ## 5. get-or-create of the segstore table
@@ -540,3 +585,78 @@ theorem create_lost_ack_if_unlocked_before_insert :
     .call 1 0, .call 1 0, .call 1 0, .call 1 0, .call 1 0, .call 1 0, .call 0 0, .call 0 0, .call 1 0], 1, 1, by decide⟩
 
 end SigModel.Props.C11.Create
+
+/-! ## 6. concurrent flushes of different segstores
+
+The machine of `SigModel/Model/ConcFlush.lean`: one thread per store, each the block-summary part of a flush
+(flushBlockSummary: encode the summary of the store's block into the work buffer, then append the buffer to the
+segment's .bsu file), interleaved in ANY order — a flush holds the lock of its own store only.  `Cfg.real` (the work
+buffer is allocated by the call) is tied to the source by the regenerated fact `C11.flush.bsu.pkgvars`
+(flushBlockSummary and EncodeBlocksum refer to no package-level variable) and by the replay of generated schedules
+on the real writer (suite conc, op `c11f`: every flush stopped before the encoding and before the write; the .bsu
+files read back after rotation). -/
+
+namespace SigModel.Props.C11.Flush
+open SigModel.ConcFlush
+
+/-- C11.6a (schedule independence) Whatever the interleaving of the flushes of the stores in a round — any schedule,
+any number of stores, any blocks, any earlier file contents — every store j < n has afterwards appended EXACTLY the
+summary of its own block to its own file: the stored contents equal those of the sequential execution. -/
+theorem flush_round_equals_sequential (cur : Nat → Sum) (n : Nat) (s : St) (sched : List Nat) (j : Nat) (hj : j < n) :
+    ((round Cfg.real cur n s sched).th j).file = (s.th j).file ++ [cur j] :=
+  Lemmas.C11g.round_file cur n s sched j hj
+
+/-- C11.6b (flushes of different stores commute) Two schedules of the same round leave the same files. -/
+theorem flushes_of_different_stores_commute (cur : Nat → Sum) (n : Nat) (s : St) (sched₁ sched₂ : List Nat)
+    (j : Nat) (hj : j < n) :
+    ((round Cfg.real cur n s sched₁).th j).file = ((round Cfg.real cur n s sched₂).th j).file := by
+  rw [flush_round_equals_sequential cur n s sched₁ j hj, flush_round_equals_sequential cur n s sched₂ j hj]
+
+/-- C11.6c (any number of rounds = blocks per segment) After the rounds `scheds` (round r flushes the blocks
+`cur r ·`) the file of store j holds, after what it held before, the summaries of ITS blocks in round order —
+nothing of any other store, nothing missing, nothing twice. -/
+theorem flush_rounds_equal_sequential (cur : Nat → Nat → Sum) (n : Nat) (scheds : List (List Nat)) :
+    ∀ (r0 : Nat) (s : St) (j : Nat), j < n →
+      ((rounds Cfg.real cur n r0 s scheds).th j).file =
+        (s.th j).file ++ (List.range scheds.length).map (fun r => cur (r0 + r) j) := by
+  induction scheds with
+  | nil => intro r0 s j _; simp [rounds]
+  | cons sched rest ih =>
+    intro r0 s j hj
+    rw [rounds, ih (r0 + 1) _ j hj, flush_round_equals_sequential (cur r0) n s sched j hj]
+    rw [List.length_cons, List.range_succ_eq_map, List.map_cons, List.map_map, List.append_assoc]
+    congr 1
+    show cur r0 j :: _ = cur (r0 + 0) j :: _
+    congr 1
+    apply List.map_congr_left
+    intro r _
+    show cur (r0 + 1 + r) j = cur (r0 + (r + 1)) j
+    rw [Nat.add_assoc, Nat.add_comm 1 r]
+
+/-- C11.6d (the statement the replay checks on the real files) With the blocks of the replay harness, from the empty
+engine: every block summary in the file of store j lies inside the time window of store j's own events. -/
+theorem block_summaries_are_of_own_store (n : Nat) (scheds : List (List Nat)) (hlen : scheds.length ≤ 999)
+    (j : Nat) (hj : j < n) (b : Sum) (hb : b ∈ ((rounds Cfg.real harnessCur n 0 init scheds).th j).file) :
+    j * 1000000 ≤ b.lo ∧ b.lo ≤ b.hi ∧ b.hi < (j + 1) * 1000000 := by
+  rw [flush_rounds_equal_sequential harnessCur n scheds 0 init j hj] at hb
+  simp only [init, List.nil_append, List.mem_map, List.mem_range, Nat.zero_add] at hb
+  obtain ⟨r, hr, rfl⟩ := hb
+  simp only [harnessCur]
+  omega
+
+/-- Non-vacuity / why the buffer must not be shared: with ONE package-level work buffer (`Cfg.sharedWorkBuf`; "the
+function runs with the segstore lock held" — the lock is per store) two stores between "encoded" and "written" at
+the same time make the first one write the OTHER store's summary: the file of store 0 holds a block of store 1's
+time window and none of its own. -/
+theorem shared_work_buffer_counterexample :
+    ∃ (sched : List Nat),
+      ((round Cfg.sharedWorkBuf (harnessCur 0) 2 init sched).th 0).file = [harnessCur 0 1] ∧
+      ((round Cfg.sharedWorkBuf (harnessCur 0) 2 init sched).th 0).file ≠ [harnessCur 0 0] :=
+  ⟨[0, 0, 1, 1], by decide⟩
+
+/-- … while the sequential schedule is harmless even then: the variant passes every test that flushes the stores
+one after the other. -/
+example : ((round Cfg.sharedWorkBuf (harnessCur 0) 2 init [0, 0, 0, 1, 1, 1]).th 0).file = [harnessCur 0 0] := by
+  decide
+
+end SigModel.Props.C11.Flush
